@@ -12,6 +12,7 @@ Conventions
   * `keep(name)` -> True leaves a call alone (anchors a rule wants to see as calls);
   * recursion and depth are bounded; anything not understood is left as the original call.
 """
+import re
 import copy
 
 from mir import Body, call_target, callee_names
@@ -124,6 +125,20 @@ def _map_term(t, lm, bm):
         t["t"] = bm(t["t"])
         t["unwind"] = bm(t["unwind"]) if t.get("unwind") is not None else None
     return t
+
+
+def _walk_term(t):
+    st = [t]
+    while st:
+        x = st.pop()
+        if isinstance(x, tuple) and x and isinstance(x[0], str):
+            yield x
+            for y in x[1:]:
+                if isinstance(y, tuple):
+                    if y and isinstance(y[0], str):
+                        st.append(y)
+                    else:
+                        st.extend(z for z in y if isinstance(z, tuple))
 
 
 def compute_idom(blocks):
@@ -269,6 +284,8 @@ class _Builder:
                 nt = {"k": "goto", "t": t["unwind"], "line": ct.get("line")}
             else:
                 nt = _map_term(ct, lm, bm)
+                if nt["k"] == "call":
+                    self.resolve_self_call(nt, t)
             self.blocks.append({"cleanup": cb["cleanup"], "stmts": stmts, "term": nt})
             self.origin[len(self.blocks) - 1] = callee.id
         # parameter binding
@@ -296,6 +313,189 @@ class _Builder:
         if p["p"]:
             return None
         return self.locals[p["l"]]["ty"]
+
+    def find_impl(self, trait_method, self_ty):
+        """Body of `<self_ty as Trait>::method` for the trait method path `crate::..::Trait::method`."""
+        norm_ty = lambda x: re.sub(r"'\w+", "'_", x or "")
+        self_ty = norm_ty(self_ty)
+        if "::" not in trait_method:
+            return None
+        tpath, meth = trait_method.rsplit("::", 1)
+        crate = tpath.split("::", 1)[0]
+        tshort = tpath.split("::", 1)[1] if "::" in tpath else tpath
+        for b in self.facts.bodies.values():
+            n = b.name
+            if not n.endswith("::" + meth) or " as " not in n:
+                continue
+            m_ = re.match(r"^%s::<(.+) as (.+)>::%s$" % (re.escape(crate), re.escape(meth)), n)
+            if m_ and norm_ty(m_.group(1)) == self_ty and m_.group(2).split("<")[0] == tshort:
+                return b
+        return None
+
+    def devirt_one(self, view):
+        """A `dyn Trait` method call whose receiver was coerced from concrete types inside this body: resolve it
+        (one coercion) or split the straight-line run from the join of the coercions to the call, one copy per
+        concrete type (several), so that each copy calls its own impl."""
+        nblocks = len(self.blocks)
+        preds = {}
+        for bi, blk in enumerate(self.blocks):
+            for s_ in view.succs(bi, unwind=False):
+                preds.setdefault(s_, set()).add(bi)
+        for ci in range(nblocks):
+            blk = self.blocks[ci]
+            t = blk["term"]
+            if t["k"] != "call" or blk["cleanup"] or not t.get("args"):
+                continue
+            k = (t.get("fn") or {}).get("k") or {}
+            if k.get("res_kind") != "virtual":
+                continue
+            rp = t["args"][0].get("m") or t["args"][0].get("c")
+            if rp is None or rp["p"]:
+                continue
+            cur = rp["l"]
+            cands = None
+            for _ in range(12):
+                ds = view.defs().get(cur, [])
+                if not ds or any(d[2] != "assign" for d in ds):
+                    break
+                rvs = [d[3]["rv"] for d in ds]
+                def bare(op):
+                    pl = op.get("m") or op.get("c") if isinstance(op, dict) else None
+                    return pl["l"] if pl and not pl["p"] else None
+                def concrete(rv):
+                    fr = rv.get("from") or ""
+                    return rv["k"] == "cast" and "Unsize" in str(rv.get("ck")) and "dyn " not in fr
+                if all(concrete(rv) for rv in rvs):
+                    cands = [(d[0], rv.get("from")) for d, rv in zip(ds, rvs)]
+                    break
+                if len(ds) != 1:
+                    break
+                rv = rvs[0]
+                nxt = None
+                if rv["k"] == "use":
+                    nxt = bare(rv["a"])
+                elif rv["k"] == "ref" and rv["place"]["p"] == ["deref"]:
+                    nxt = rv["place"]["l"]
+                elif rv["k"] == "cast":
+                    nxt = bare(rv["a"])
+                if nxt is None:
+                    break
+                cur = nxt
+            if not cands:
+                continue
+            strip = lambda ty: re.sub(r"^(&mut |&|std::boxed::Box<)", "", ty or "").rstrip(">") if (ty or "").startswith("std::boxed::Box<") else re.sub(r"^(&mut |&)", "", ty or "")
+            impls = []
+            for (db, fr) in cands:
+                ib = self.find_impl(k["def"], strip(fr))
+                impls.append((db, strip(fr), ib))
+            def resolved(kk, ty_, ib):
+                kk = dict(kk)
+                if ib is not None:
+                    kk.update({"res": ib.name, "res_id": ib.id, "res_gargs": [ty_], "res_kind": "item"})
+                else:
+                    kk.update({"res": kk["def"], "res_id": kk.get("def_id"), "res_gargs": [ty_], "res_kind": "item", "gargs": [ty_]})
+                return {"k": kk}
+            if len(cands) == 1:
+                t["fn"] = resolved(k, impls[0][1], impls[0][2])
+                self.inlined.append(("adaptor:devirt", ci))
+                return True
+            # several coercions: their blocks must all jump to one join, from which a straight line reaches the call
+            dbs = [c[0] for c in cands]
+            if len(set(dbs)) != len(dbs):
+                continue
+            joins = set()
+            for db in dbs:
+                tt = self.blocks[db]["term"]
+                joins.add(tt["t"] if tt["k"] == "goto" else None)
+            if len(joins) != 1 or None in joins:
+                continue
+            j = joins.pop()
+            if preds.get(j, set()) != set(dbs):
+                continue
+            chain = [j]
+            ok = True
+            while chain[-1] != ci:
+                tt = self.blocks[chain[-1]]["term"]
+                if tt["k"] != "goto" or len(chain) > 12:
+                    ok = False
+                    break
+                nx = tt["t"]
+                if preds.get(nx, set()) != {chain[-1]} or nx in chain:
+                    ok = False
+                    break
+                chain.append(nx)
+            if not ok:
+                continue
+            inside = set(chain)
+            used_out = set()
+            rec = lambda l: (used_out.add(l), l)[1]
+            for bi, b_ in enumerate(self.blocks):
+                if bi in inside:
+                    continue
+                for st in b_["stmts"]:
+                    _map_stmt(st, rec)
+                if b_["term"] is not None:
+                    _map_term(b_["term"], rec, lambda x: x)
+            assigned = set()
+            for bi in chain:
+                for st in self.blocks[bi]["stmts"]:
+                    if st["k"] == "assign" and not st["lhs"]["p"]:
+                        assigned.add(st["lhs"]["l"])
+            argc = self.raw.get("argc", 0)
+            private = {l for l in assigned if l not in used_out and l > argc}
+            for (db, ty_, ib) in impls:
+                lmap = {l: self.new_local(self.locals[l]["ty"], name=self.locals[l].get("name")) for l in sorted(private)}
+                base = len(self.blocks)
+                bmap = {b_: base + i for i, b_ in enumerate(chain)}
+                lm = lambda l, lmap=lmap: lmap.get(l, l)
+                bm = lambda b_, bmap=bmap: bmap.get(b_, b_)
+                for b_ in chain:
+                    src = self.blocks[b_]
+                    nt = _map_term(copy.deepcopy(src["term"]), lm, bm)
+                    if b_ == ci:
+                        nt["fn"] = resolved(k, ty_, ib)
+                    self.blocks.append({"cleanup": src["cleanup"], "stmts": [_map_stmt(copy.deepcopy(st), lm) for st in src["stmts"]], "term": nt})
+                    self.origin[len(self.blocks) - 1] = "devirt"
+                dt = dict(self.blocks[db]["term"])
+                dt["t"] = bmap[j]
+                self.blocks[db]["term"] = dt
+            for b_ in chain:
+                self.blocks[b_] = {"cleanup": False, "stmts": [], "term": {"k": "unreachable", "line": t.get("line")}}
+            self.inlined.append(("adaptor:devirt%d" % len(impls), ci))
+            return True
+        return False
+
+    def resolve_self_call(self, nt, outer):
+        """Inside a trait's default method the sibling calls `self.m()` are generic in Self.  Once the method is
+        expanded at a call whose Self type is known, they resolve to that type's impl."""
+        k = (nt.get("fn") or {}).get("k") or {}
+        if k.get("kind") != "fn" or k.get("res") or "Self" not in (k.get("gargs") or []):
+            return
+        k = dict(k)                        # the constant record is shared with the callee's own body
+        nt["fn"] = {"k": k}
+        ok = ((outer.get("fn") or {}).get("k") or {})
+        og = ok.get("res_gargs") or ok.get("gargs") or []
+        if not og:
+            return
+        norm_ty = lambda x: re.sub(r"'\w+", "'_", x or "")
+        self_ty = norm_ty(og[0])
+        tr = k["def"]                      # crate::path::Trait::method
+        if "::" not in tr:
+            return
+        tpath, meth = tr.rsplit("::", 1)
+        crate = tpath.split("::", 1)[0]
+        tshort = tpath.split("::", 1)[1] if "::" in tpath else tpath
+        for b in self.facts.bodies.values():
+            n = b.name
+            if not n.endswith("::" + meth) or " as " not in n:
+                continue
+            m_ = re.match(r"^%s::<(.+) as (.+)>::%s$" % (re.escape(crate), re.escape(meth)), n)
+            if m_ and norm_ty(m_.group(1)) == self_ty and m_.group(2).split("<")[0] == tshort:
+                k["res"] = n
+                k["res_id"] = b.id
+                k["res_gargs"] = list(og[:1])
+                k["res_kind"] = "item"
+                return
 
     # -- adaptor -> loop -------------------------------------------------------------------
     def desugar(self, bi, kind, closure, line):
@@ -395,7 +595,15 @@ class _Builder:
             self.blocks[exit_hit]["stmts"] = [A(dest, U({"m": P(l_r)}), dty)]
             self.blocks[exit_none]["stmts"] = [A(dest, opt("None", 0, []), dty)]
         elif kind == "position":
-            return False
+            l_i = self.new_local("usize")
+            incr = self.new_block([], None)
+            self.blocks[bi]["stmts"].append(A(P(l_i), U(K(0, "usize")), "usize"))
+            self.blocks[after]["term"] = {"k": "switch", "d": {"m": P(l_r)}, "dty": "bool",
+                                          "targets": [[0, incr]], "otherwise": exit_hit, "line": line}
+            self.blocks[incr]["stmts"] = [A(P(l_i), {"k": "bin", "op": "Add", "a": {"c": P(l_i)}, "b": K(1, "usize"), "aty": "usize"}, "usize")]
+            self.blocks[incr]["term"] = G(head)
+            self.blocks[exit_hit]["stmts"] = [A(dest, opt("Some", 1, [{"c": P(l_i)}]), dty)]
+            self.blocks[exit_none]["stmts"] = [A(dest, opt("None", 0, []), dty)]
         elif kind == "for_each":
             self.blocks[after]["term"] = G(head)
             self.blocks[exit_none]["stmts"] = [A(dest, unit, dty)]
@@ -595,14 +803,21 @@ class _Builder:
                     src = src[1]
                 else:
                     break
-            if not (src[0] == "agg" and src[1] == "array" and 0 < len(src[4]) <= 40):
+            is_repeat = src[0] == "repeat" and isinstance(src[2], int) and 0 < src[2] <= 40
+            if not (is_repeat or (src[0] == "agg" and src[1] == "array" and 0 < len(src[4]) <= 40)):
                 continue
             # the statement that built the array: take its operands
             arr_ops = None
             arr_local = None
+            mut_iter = any(x[0] == "call" and x[1].endswith("<impl [T]>::iter_mut") for x in _walk_term(it))
             for blk in self.blocks:
                 for st in blk["stmts"]:
-                    if st["k"] == "assign" and st["rv"]["k"] == "agg" and st["rv"].get("ak") == "array" and len(st["rv"]["fields"]) == len(src[4]):
+                    if is_repeat:
+                        if st["k"] == "assign" and st["rv"]["k"] == "repeat" and st["rv"].get("n") == src[2] and not st["lhs"]["p"] \
+                                and view.term_of_operand(st["rv"]["a"]) == src[1]:
+                            arr_ops = [st["rv"]["a"]] * src[2]
+                            arr_local = st["lhs"]["l"]
+                    elif st["k"] == "assign" and st["rv"]["k"] == "agg" and st["rv"].get("ak") == "array" and len(st["rv"]["fields"]) == len(src[4]):
                         if tuple(view.term_of_operand(f) for f in st["rv"]["fields"]) == tuple(src[4]):
                             arr_ops = st["rv"]["fields"]
                             arr_local = st["lhs"]["l"] if not st["lhs"]["p"] else None
@@ -615,7 +830,7 @@ class _Builder:
                 ref_ops = []
                 for i_ in range(len(arr_ops)):
                     l_r = self.new_local("&elem")
-                    ref_ops.append((l_r, {"k": "ref", "mut": False, "place": {"l": arr_local, "p": [{"cidx": i_}]}}))
+                    ref_ops.append((l_r, {"k": "ref", "mut": mut_iter, "place": {"l": arr_local, "p": [{"cidx": i_}]}}))
             if head != nb and (self.blocks[head]["stmts"] or self.blocks[head]["term"]["k"] != "goto"):
                 continue          # a separate head block must only jump to the next() block
             # one iteration = everything dominated by the Some arm: the loop body proper and the blocks that leave
@@ -809,6 +1024,11 @@ class _Builder:
         for rnd in range(self.max_depth * 3):
             view = self.snapshot()
             changed = False
+            try:
+                if self.devirt_one(view):
+                    continue
+            except Exception:
+                pass
             nblocks = len(self.blocks)
             for bi in range(nblocks):
                 blk = self.blocks[bi]
